@@ -23,8 +23,13 @@ _WEIGHTS = [("cartesian", 2), ("argcomb", 2), ("field", 2), ("withfield", 2), ("
 _OPS = [name for name, w in _WEIGHTS for _ in range(w)]
 
 
-def _rand_op(rng):
+_KIND_OF = {"argsort": "sort", "rt_buffers": "rt", "rt_pickle": "rt", "rt_arrow": "rt", "rt_json": "rt", "rt_iter": "rt"}
+
+
+def _rand_op(rng, focus=None):
     kind = rng.choice(_OPS)
+    if focus and rng.random() < 0.5:
+        kind = rng.choice(focus)                    # the operations the calling check reports on, half of the time
     ax = rng.choice([-3, -2, -1, 0, 1, 2])
     if kind == "slice":
         nb = 99999
@@ -87,12 +92,18 @@ def _rand_op(rng):
     return kind, {}                     # singletons, firsts, concatperm, bcperm, concat0, concat1, zip, unflatten
 
 
-def gen_cases(seed, n, maxops, outdir):
+def gen_cases(seed, n, maxops, outdir, focus=None):
     rng = random.Random(seed)
+    known = set(name for name, w in _WEIGHTS)
+    focus = sorted(set(_KIND_OF.get(o, o) for o in (focus or ())) & known)
+    records = bool(set(focus) & {"field", "withfield", "withfield_b", "zip", "bcperm", "concatperm"})
     cases = []
     for t in range(n):
-        L, _n = trmod._rand_layout(rng, rng.randint(1, 3), allow_union=True)
-        ops = [_rand_op(rng) for _ in range(rng.randint(2, maxops))]
+        if records and rng.random() < 0.5:
+            L, _n = trmod._rand_record_layout(rng, 2, True)      # records in the middle: lists, fixed-size lists, options above
+        else:
+            L, _n = trmod._rand_layout(rng, rng.randint(1, 3), allow_union=True)
+        ops = [_rand_op(rng, focus) for _ in range(rng.randint(2, maxops))]
         cases.append({"act": "pychain", "id": t, "layout": L, "ops": ops, "outdir": outdir})
     return cases
 
